@@ -66,6 +66,12 @@ func c18Prefixes(kind string) []c18Pfx {
 		return []c18Pfx{p1, p2}
 	case "p1host":
 		return []c18Pfx{{"2001:db8:1::5", 64, true, true, 10 * time.Second, 5 * time.Second}}
+	case "pgtv": // preferred lifetime longer than the valid one (malformed by RFC 4861, still an option received)
+		return []c18Pfx{{"2001:db8:1::", 64, true, true, 60 * time.Second, 120 * time.Second}}
+	case "v0pinf": // withdrawn prefix whose preferred lifetime is infinity
+		return []c18Pfx{{"2001:db8:1::", 64, true, false, 0, ndp.Infinity}}
+	case "p1p1b": // the same prefix twice in one RA: each option sets the gauges in turn
+		return []c18Pfx{p1, {"2001:db8:1::", 64, false, false, 20 * time.Second, 20 * time.Second}}
 	case "p148":
 		return []c18Pfx{{"2001:db8:1::", 48, true, true, 10 * time.Second, 5 * time.Second}}
 	case "badlen+p2":
@@ -434,7 +440,7 @@ func TestVerifC18(t *testing.T) {
 	var shapes []c18Msg
 	for _, fl := range []string{"", "M", "O", "MO"} {
 		for _, life := range []int{0, 30} {
-			for _, pf := range []string{"none", "p1", "p1inf", "p1p2", "p1host", "p148", "badlen+p2"} {
+			for _, pf := range []string{"none", "p1", "p1inf", "p1p2", "p1host", "p148", "badlen+p2", "pgtv", "v0pinf", "p1p1b"} {
 				for _, unk := range []bool{false, true} {
 					shapes = append(shapes, c18Msg{Type: "RA", Flags: fl, Life: life, Prefixes: pf, Unknown: unk})
 				}
